@@ -63,6 +63,24 @@ class Cuboid:
     def volume(self):
         return _np.prod(self.size)
 
+    def buffer(self, amount=0, inplace=False):
+        amount = objarr(_np.broadcast_to(_np.asarray(amount, dtype=object), self.pos.shape))
+        if inplace:
+            self.pos = self.pos - amount
+            self.size = self.size + 2 * amount
+            return self
+        return Cuboid(self.pos - amount, self.size + 2 * amount)
+
+    def copy(self):
+        return Cuboid(self.pos.copy(), self.size.copy())
+
+    @property
+    def centroid(self):
+        return self.pos + self.size / 2
+
+    def contains_point(self, points):
+        raise core.Abort("unsupported", "Cuboid.contains_point")
+
     def __add__(self, other):
         a1, a2 = self.corners
         b1, b2 = other.corners
